@@ -39,10 +39,16 @@ def eval_copy(case):
     chunklen = {'len+1': shape[0] + 1}.get(cl, cl)
     ref = base.astype(dtarg) if dtarg is not None else base
     sbefore = snapshot.snap('s.darr')
-    w, c = outcome_of(lambda: s.copy('c.darr', dtype=dtarg, chunklen=chunklen, accessmode=mode))
+    occ = case.get('occupant')
+    if occ:          # the destination already holds another array, with metadata of its own
+        darr.asarray('c.darr', np.arange(7, dtype='<i2'), metadata={'old': 'occupant', 'n': 7})
+        w, c = outcome_of(lambda: s.copy('c.darr', dtype=dtarg, chunklen=chunklen, accessmode=mode, overwrite=True))
+    else:
+        w, c = outcome_of(lambda: s.copy('c.darr', dtype=dtarg, chunklen=chunklen, accessmode=mode))
     V = []
-    pre = f'array,{"empty" if shape[0] == 0 else "nonempty"},dtype={"given" if dtarg else "None"}'
-    desc = f'Array({src}{shape}).copy(dtype={dtarg}, chunklen={cl}, accessmode={mode}, metadata={case["meta"]})'
+    pre = f'array,{"empty" if shape[0] == 0 else "nonempty"},dtype={"given" if dtarg else "None"}' + (',onto occupied path' if occ else '')
+    desc = f'Array({src}{shape}).copy(dtype={dtarg}, chunklen={cl}, accessmode={mode}, metadata={case["meta"]})' + \
+        (' with overwrite=True onto an array that has metadata' if occ else '')
     if w == 'raises':
         V.append(viol('copy', 'Array.copy', pre, f'raises {exc_class(c)}', f'{desc} raises {c!r}'))
     else:
@@ -66,7 +72,7 @@ def eval_copy(case):
         V.append(viol('copy', 'Array.copy', pre, 'source changed by copy', desc))
     rmtree('s.darr')
     rmtree('c.darr')
-    return V, ('copy', shape[0] == 0, len(shape), dtarg is not None, cl, case['meta']), 1
+    return V, ('copy', shape[0] == 0, len(shape), dtarg is not None, cl, case['meta'], bool(occ)), 1
 
 
 RAGGED_SRC = {'nosubs': [], 'onlyempty': [0, 0], 'mixed': [2, 0, 1], 'single': [3]}
@@ -221,6 +227,12 @@ def eval_archive(case):
         a = darr.asarray('w/a.darr', np.arange(12, dtype='>f4').reshape(4, 3), metadata={'k': [1, 2]})
     else:
         a = darr.asraggedarray('w/a.darr', [[1, 2], [], [3]], metadata={'k': [1, 2]})
+    if case.get('userfiles'):
+        a.datadir.write_txt('notes.txt', 'notes the user keeps with the data\n')
+        a.datadir.write_jsondict('calibration.json', {'gain': 2.5})
+        os.makedirs('w/a.darr/extra')
+        with open('w/a.darr/extra/raw.dat', 'wb') as f:
+            f.write(b'\x00\x01\x02')
     apath = 'w/custom.archive' if explicit else f'w/a.darr.tar.{ctype}'
     V = []
     pre = f'{kind},{ctype}'
@@ -267,7 +279,7 @@ def eval_archive(case):
             if rest_a != rest_b:
                 V.append(viol('archive', 'archive', pre, 'archiving changed other files', desc))
     rmtree('w')
-    return V, ('archive', kind, ctype, explicit, exists, ow), 1
+    return V, ('archive', kind, ctype, explicit, exists, ow, bool(case.get('userfiles'))), 1
 
 
 def evaluate(case):
@@ -283,6 +295,8 @@ def build_cases(tier):
     cases += product({'sub': ['copy'], 'src': ['<f8', '>i2'], 'dtype': [None, 'float32'],
                       'shape': [list(s) for s in SHAPES], 'chunklen': [None, 1, 2, 'len+1'], 'accessmode': ['r', 'r+'],
                       'meta': ['none', 'nested']})
+    cases += product({'sub': ['copy'], 'src': ['<f8', '>i2'], 'dtype': [None, 'float32'], 'shape': [[0], [5], [5, 2]],
+                      'chunklen': [None, 2], 'accessmode': ['r'], 'meta': ['none', 'nested'], 'occupant': [True]})
     cases += product({'sub': ['rcopy'], 'src': ['<f8', '>i2', '<c8'] if q else SRC_Q,
                       'dtype': [None, 'float32', 'int64', 'complex128'], 'atom': [[], [2], [2, 1]],
                       'content': list(RAGGED_SRC), 'meta': ['none', 'nested'], 'indextype': ['int64', 'int32']},
@@ -296,6 +310,8 @@ def build_cases(tier):
     cases += product({'sub': ['archive'], 'kind': ['array', 'ragged'], 'ctype': ['xz', 'gz', 'bz2', 'zip'],
                       'explicit': [False, True], 'exists': [False, True], 'overwrite': [False, True]},
                      valid=lambda c: c['ctype'] != 'zip' or (not c['exists'] and not c['overwrite']))
+    cases += product({'sub': ['archive'], 'kind': ['array', 'ragged'], 'ctype': ['xz', 'gz', 'bz2'], 'explicit': [False, True],
+                      'exists': [False], 'overwrite': [False], 'userfiles': [True]})
     return cases
 
 
